@@ -1039,7 +1039,8 @@ class Fn2(c2lean.Fn):
         else:
             body, cond, inc = inner[0], inner[1], {}
         self.nloops += 1
-        lname_ = f"{self.lean_name}_loop{self.nloops}"
+        lnum = self.nloops
+        lname_ = f"{self.lean_name}_loop{lnum}"
         # state: variables assigned in the loop that exist outside it, stores and out-params touched in it
         scope = {"inner": [x for x in (cond, inc, body) if x.get("kind")]}
         local = set(declared_names(body))
@@ -1140,7 +1141,7 @@ class Fn2(c2lean.Fn):
         capsig = " ".join(f"({nm} : {known[nm]})" for nm in caps)
         step = step.replace("@CAPS@", " ".join(caps)).replace("  ", "  ")
         rho = self.rho()
-        text = (f"/-- loop {self.nloops} of `{self.name}`: state ({', '.join(key for _, key in state) or 'none'}) -/\n"
+        text = (f"/-- loop {lnum} of `{self.name}`: state ({', '.join(key for _, key in state) or 'none'}) -/\n"
                 f"def {lname_} {capsig} : Nat → {sigma} → LoopR ({sigma}) ({rho})\n"
                 f"  | 0, _ => .nofuel\n  | fuel + 1, {pat} =>\n{I(step, 4)}\n")
         text = re.sub(r" +\n", "\n", text.replace("  fuel + 1", "fuel + 1"))
@@ -1167,7 +1168,12 @@ class Fn2(c2lean.Fn):
             outs_names = ["_"]
         opat = "(" + ", ".join(outs_names) + ")" if len(outs_names) > 1 else outs_names[0]
         init_t = "(" + ", ".join(inits) + ")" if len(inits) > 1 else paren(inits[0])
-        after = self.block(([("pop", saved)] if saved else []) + rest, env, ctx)
+        infinite = (k == "WhileStmt" and cond.get("kind") and const_int(self.expr_text_safe(cond)) not in (None, 0)
+                    and not has_kind(body, "BreakStmt"))
+        if infinite:
+            after = ctx.nofuel() + "   -- unreachable: `while (1)` without break leaves only by return"
+        else:
+            after = self.block(([("pop", saved)] if saved else []) + rest, env, ctx)
         call = f"{lname_} {' '.join(caps)} fuel {init_t}".replace("  ", " ")
         return (pre + f"match {call} with\n| .nofuel => {ctx.nofuel()}\n| .ret r => {ctx.pass_ret('r')}\n"
                       f"| .done {opat} =>\n{I(after)}")
@@ -1362,6 +1368,15 @@ TARGETS2 = {
         ("varintRLE.c", "varintRLEAnalyze", "rleAnalyze"),
         ("varintRLE.c", "varintRLEEncode", "rleEncode"),
         ("varintRLE.c", "varintRLEGetRunCount", "rleGetRunCount"),
+    ],
+    "CRLEDec": [
+        ("import", "CTagged", TAGGED_IMPORTS),
+        ("import", "CTaggedAdd", "varintTagged.c:varintTaggedGet64:taggedGet64"),
+        ("varintRLE.c", "varintRLEDecodeRun", "rleDecodeRun"),
+        ("varintRLE.c", "varintRLEDecode", "rleDecode"),
+        ("varintRLE.c", "varintRLEDecodeWithHeader", "rleDecodeWithHeader"),
+        ("varintRLE.c", "varintRLEGetAt", "rleGetAt"),
+        ("varintRLE.c", "varintRLEGetCount", "rleGetCount"),
     ],
     "CTaggedAdd": [
         ("import", "CTagged", TAGGED_IMPORTS),
